@@ -607,8 +607,11 @@ class Interpreter:
                 last_before_lca = state
 
             # Take all the descendants of this state and list the ones that are active
-            # Mind the reversed order!
-            for descendant in self._statechart.descendants_for(last_before_lca)[::-1]:
+            # Mind the order: deepest states first, ties are broken using the state name
+            # (and not using the order in which the states were declared)
+            for descendant in sorted(
+                    self._statechart.descendants_for(last_before_lca),
+                    key=lambda s: (-self._statechart.depth_for(s), s)):
                 # Only leave states that are currently active
                 if descendant in self._configuration:
                     exited_states.append(descendant)
